@@ -1085,7 +1085,8 @@ pub fn run(ctx: &Ctx) {
                     for rand in [false, true] {
                         let case = Case { cfg: cfg.clone(), rand, tie: false, steps: steps.to_vec() };
                         run_case(ctx, &case, rt, l, Some(&totals), selftest);
-                        if has_tie_spot(steps) {
+                        // the tie placement is explored up to length 4
+                        if has_tie_spot(steps) && steps.len() <= 4 {
                             let case = Case { cfg: cfg.clone(), rand, tie: true, steps: steps.to_vec() };
                             run_case(ctx, &case, rt, l, Some(&totals), selftest);
                         }
